@@ -892,6 +892,7 @@ func (r *Run) starveStep() {
 func (r *Run) mixedTimeoutStep() {
 	t := r.sc.Topics[0]
 	r.httpAdmin("/channel/create?topic=" + t + "&channel=mix")
+	heldID := ""
 	hold := func(name string, tmoMs int, key string) *Conn {
 		cn, err := dial(r.nd.TCP, r.newConnName(name))
 		if err != nil {
@@ -916,6 +917,7 @@ func (r *Run) mixedTimeoutStep() {
 		deadline := time.Now().Add(10 * time.Second)
 		for time.Now().Before(deadline) {
 			if f, ok := cn.next(50 * time.Millisecond); ok && f.Type == 2 {
+				heldID = f.ID
 				return cn // held, never answered
 			}
 		}
@@ -927,7 +929,12 @@ func (r *Run) mixedTimeoutStep() {
 		return
 	}
 	defer long.close()
-	time.Sleep(350 * time.Millisecond) // several scan ticks see the long deadline at the head of the heap
+	time.Sleep(150 * time.Millisecond)
+	if heldID != "" {
+		// ... and asks for more time once: the timeout restarts with what THIS connection negotiated (C04: TouchCalc)
+		long.cmd("TOUCH", heldID, "")
+	}
+	time.Sleep(200 * time.Millisecond) // several scan ticks see the long deadline at the head of the heap
 	short := hold("mxs", 1000, "p95-00001")
 	if short == nil {
 		return
